@@ -182,7 +182,7 @@ theorem single_fault_P0004 (ds : List ADecl) (hreach : analyzeDecls ds = rules d
 
 /-! ### non-vacuity -/
 
-example : semantic [⟨false, [.subrangeT 1 5 5, .structT 2 [(3, .int), (3, .bool)]]⟩] = [[P0003], [P0004]] := by decide
+example : semantic [⟨false, [.subrangeT 1 5 5, .structT 2 [(3, .int, none), (3, .bool, none)]]⟩] = [[P0003], [P0004]] := by decide
 example : semantic [⟨false, [.subrangeT 1 1 5, .prog 2 [⟨3, .var, false, .int, none⟩] [.assign 3 [3]]]⟩] = [] := by decide
 example : semantic [⟨false, [.prog 2 [⟨3, .var, false, .int, none⟩] [.assign 3 [4]]]⟩] = [[P0015]] := by decide
 
